@@ -405,6 +405,15 @@ class Piece:
                 p = toks[lps[occ - 1][1]].end
                 self._add(p, p, "\n" + text + "\n", arule)
                 continue
+            if where == "exits":
+                # before every `return` of the body and (unit functions only) at the end of the body
+                for k in range(kb, k1):
+                    if toks[k].text == "return":
+                        p = self._stmt_bound(k, kb, k1, True)
+                        self._add(p, p, "\n" + text + "\n", arule)
+                if toks[k1 - 1].text in (";", "}"):
+                    self._add(toks[k1].start, toks[k1].start, "\n" + text + "\n", arule)
+                continue
             if where == "loop_end":
                 if occ < 1 or occ > len(lps):
                     raise Undecided(f"{fn.name}: loop #{occ} not found")
@@ -447,6 +456,22 @@ class Piece:
                 self._add(wstart + m.start(), wstart + m.end(), new, rule)
         # ghost arguments at call sites
         self._ghost_calls(kb, k1, fn.name)
+
+    def _decl_edits(self, fn, fs):
+        """contract on a trait method declaration (no body): name the result, put the clauses before the `;`"""
+        toks = self.sf.toks
+        k = fn.k0
+        while toks[k].text != "fn":
+            k += 1
+        kp = k + 2
+        while toks[kp].text != "(":
+            kp += 1
+        kpc = match_close(toks, kp)
+        if fs.ret and toks[kpc + 1].text == "-":
+            self._add(toks[kpc + 3].start, toks[kpc + 3].start, f"({fs.ret}: ", "T-RET")
+            self._add(toks[fn.k1 - 1].end, toks[fn.k1 - 1].end, ")", "T-RET")
+        if fs.sig:
+            self._add(toks[fn.k1].start, toks[fn.k1].start, "\n" + fs.sig + "\n", "insert")
 
     def _stmt_bound(self, kt, kb, k1, before):
         """char position of the start (before=True) or end of the statement containing token kt"""
@@ -649,6 +674,8 @@ class Piece:
                         fs = FnSpec()
                 if fn.body_open is not None:
                     self._fn_edits(fn, fs)
+                elif fs.sig or fs.ret:
+                    self._decl_edits(fn, fs)
         for name in self.fnspecs:
             if name not in fns:
                 raise Undecided(f"{self.spec}: contract for unknown fn `{name}`")
